@@ -208,6 +208,77 @@ pub fn driver(tier: Tier, path: &str) -> i32 {
     ctx.case("Option<f64>", "Some(NaN)", &Value::Null, &|e| e.search(Some(f64::NAN)));
     ctx.case("(i8,&str)", "(-1,\"a\")", &json!([-1, "a"]), &|e| e.search((-1i8, "a")));
     ctx.case("[f64;2]", "[NaN,1.0]", &json!([null, 1.0]), &|e| e.search([f64::NAN, 1.0]));
+    // inputs of types that only the generic Serialize path handles, including values the bridge cannot express
+    // (128-bit integers, maps whose keys are not strings): whatever the outcome is -- a value or an error -- it
+    // is the same in every configuration
+    {
+        use std::collections::BTreeMap;
+        #[derive(serde::Serialize, Clone)]
+        struct Wide {
+            id: u128,
+            delta: i128,
+            name: &'static str,
+        }
+        #[derive(serde::Serialize, Clone)]
+        enum Shape {
+            Unit,
+            New(i128),
+            Tup(u8, u128),
+            Rec { a: u64, b: Option<i128> },
+        }
+        #[derive(serde::Serialize, Clone)]
+        struct UnitS;
+        #[derive(serde::Serialize, Clone)]
+        struct NewT(u128);
+        let gexprs: Vec<(Expression<'static>, &'static str)> = ["@", "type(@)", "to_string(@)", "[@, @] | length(@)", "*", "[0]"].iter().map(|e| (jmespath::compile(e).unwrap(), *e)).collect();
+        let mut emit = |ctx: &mut Ctx, ty: &str, repr: &str, search: &dyn Fn(&Expression<'static>) -> Result<Rcvar, jmespath::JmespathError>| {
+            for (e, text) in &gexprs {
+                let got = match guarded(|| search(e)) {
+                    Ok(r) => render(r),
+                    Err(m) => format!("PANIC {}", m),
+                };
+                writeln!(ctx.out, "generic|{} {}|{} => {}", ty, repr, text, got).ok();
+                ctx.lines += 1;
+            }
+        };
+        for v in [0i128, 1, -1, i64::MAX as i128, i64::MAX as i128 + 1, u64::MAX as i128, u64::MAX as i128 + 1, i64::MIN as i128, i64::MIN as i128 - 1, i128::MAX, i128::MIN] {
+            emit(&mut ctx, "i128", &v.to_string(), &|e| e.search(v));
+            emit(&mut ctx, "Vec<i128>", &v.to_string(), &|e| e.search(vec![v, 2, 3]));
+            emit(&mut ctx, "Option<i128>", &v.to_string(), &|e| e.search(Some(v)));
+            emit(&mut ctx, "Shape::New", &v.to_string(), &|e| e.search(Shape::New(v)));
+            emit(&mut ctx, "Shape::Rec", &v.to_string(), &|e| e.search(Shape::Rec { a: 1, b: Some(v) }));
+        }
+        for v in [0u128, 1, u64::MAX as u128, u64::MAX as u128 + 1, u128::MAX] {
+            emit(&mut ctx, "u128", &v.to_string(), &|e| e.search(v));
+            emit(&mut ctx, "Wide", &v.to_string(), &|e| e.search(Wide { id: v, delta: -(v.min(1 << 100) as i128), name: "w" }));
+            emit(&mut ctx, "NewT", &v.to_string(), &|e| e.search(NewT(v)));
+            emit(&mut ctx, "Shape::Tup", &v.to_string(), &|e| e.search(Shape::Tup(7, v)));
+            emit(&mut ctx, "(u8,u128)", &v.to_string(), &|e| e.search((7u8, v)));
+        }
+        emit(&mut ctx, "Shape::Unit", "-", &|e| e.search(Shape::Unit));
+        emit(&mut ctx, "UnitS", "-", &|e| e.search(UnitS));
+        emit(&mut ctx, "char", "'x'", &|e| e.search('x'));
+        emit(&mut ctx, "char", "U+1F600", &|e| e.search('\u{1F600}'));
+        let m1: BTreeMap<u8, &str> = [(1u8, "one"), (2, "two")].into_iter().collect();
+        emit(&mut ctx, "BTreeMap<u8,&str>", "{1,2}", &|e| e.search(m1.clone()));
+        let m2: BTreeMap<bool, i32> = [(true, 1), (false, 0)].into_iter().collect();
+        emit(&mut ctx, "BTreeMap<bool,i32>", "{t,f}", &|e| e.search(m2.clone()));
+        let m3: BTreeMap<(u8, u8), i32> = [((1u8, 2u8), 3)].into_iter().collect();
+        emit(&mut ctx, "BTreeMap<(u8,u8),i32>", "{(1,2)}", &|e| e.search(m3.clone()));
+        let m4: BTreeMap<char, i32> = [('a', 1), ('b', 2)].into_iter().collect();
+        emit(&mut ctx, "BTreeMap<char,i32>", "{a,b}", &|e| e.search(m4.clone()));
+        let m5: BTreeMap<String, u128> = [("k".to_string(), u128::MAX), ("s".to_string(), 5)].into_iter().collect();
+        emit(&mut ctx, "BTreeMap<String,u128>", "{k,s}", &|e| e.search(m5.clone()));
+        let m6: BTreeMap<i64, f32> = [(-1i64, 0.5f32)].into_iter().collect();
+        emit(&mut ctx, "BTreeMap<i64,f32>", "{-1}", &|e| e.search(m6.clone()));
+        emit(&mut ctx, "Vec<Option<u128>>", "[None,Some]", &|e| e.search(vec![None, Some(u128::MAX), Some(1)]));
+        emit(&mut ctx, "Result<u8,String>", "Ok", &|e| e.search(Ok::<u8, String>(3)));
+        emit(&mut ctx, "Result<u8,String>", "Err", &|e| e.search(Err::<u8, String>("bad".into())));
+        emit(&mut ctx, "&[u16]", "[1,2]", &|e| e.search(&[1u16, 2][..]));
+        emit(&mut ctx, "Box<i64>", "5", &|e| e.search(Box::new(5i64)));
+        emit(&mut ctx, "std::time::Duration", "1.5s", &|e| e.search(std::time::Duration::from_millis(1500)));
+        emit(&mut ctx, "std::net::Ipv4Addr", "127.0.0.1", &|e| e.search(std::net::Ipv4Addr::new(127, 0, 0, 1)));
+    }
     // compile + search outcomes of every short sentence
     let g = Grammar::new(Relax::default());
     let alpha = t32();
@@ -298,9 +369,9 @@ pub fn run(tier: Tier, files: &[(String, String)]) -> i32 {
     for l in real.iter().step_by((real.len() / 10).max(1)) {
         st.sample(|| json!({"line": l}));
     }
-    rep.guard("all input types were exercised", ["i8", "u16", "i64", "usize", "f32", "f64", "()", "bool", "&str", "String", "Value", "&Value", "Rcvar", "&Rcvar", "Variable", "&Variable", "sentence"].iter().all(|k| st.outcomes.contains_key(*k)));
+    rep.guard("all input types were exercised", ["i8", "u16", "i64", "usize", "f32", "f64", "()", "bool", "&str", "String", "Value", "&Value", "Rcvar", "&Rcvar", "Variable", "&Variable", "sentence", "generic"].iter().all(|k| st.outcomes.contains_key(*k)));
     rep.guard("four configurations compared", contents.len() == 4);
-    rep.rule = "one driver built under {default, sync, specialized, sync+specialized}: every specially handled input type (Value, &Value, Rcvar, &Rcvar, Variable, &Variable, String, &str, i8..i64, u8..u64, isize, usize, f32, f64, (), bool) x its value alphabet (all 2^8 and 2^16 values of the narrow widths, per-bit boundaries of the wide ones, floats incl. subnormal / NaN / inf, the document pool) x 12 expressions, plus compile+search outcomes of every sentence over T32 up to the length bound on 4 documents: the four outputs are byte-identical and each line equals the reference (serde_json::to_value(input), then R-eval). states = cases per configuration; transitions = cases x configurations; non-trivial = non-null value".into();
+    rep.rule = "one driver built under {default, sync, specialized, sync+specialized}: every specially handled input type (Value, &Value, Rcvar, &Rcvar, Variable, &Variable, String, &str, i8..i64, u8..u64, isize, usize, f32, f64, (), bool) x its value alphabet (all 2^8 and 2^16 values of the narrow widths, per-bit boundaries of the wide ones, floats incl. subnormal / NaN / inf, the document pool) x 12 expressions, 35 kinds of inputs that only the generic Serialize path handles (128-bit integers at the 64-bit boundaries, alone and inside Vec / Option / struct / every enum variant kind, maps keyed by u8 / bool / char / tuple / i64, char, unit struct, Result, Duration, Ipv4Addr) x 6 expressions compared across configurations only, plus compile+search outcomes of every sentence over T32 up to the length bound on 4 documents: the four outputs are byte-identical and each line equals the reference (serde_json::to_value(input), then R-eval). states = cases per configuration; transitions = cases x configurations; non-trivial = non-null value".into();
     rep.bounds = json!({"configs": files.iter().map(|f| f.0.clone()).collect::<Vec<_>>(), "expressions": EXPRS});
     rep.stats = st;
     rep.finish()
